@@ -12,16 +12,102 @@ SPEC_A = os.path.join(VERIF, "specs", "ChannelCache")
 SPEC_B = os.path.join(VERIF, "specs", "Changes")
 SPEC_C = os.path.join(VERIF, "specs", "Listener")
 # TLC runs here are small and many; on a shared machine the default GC/JIT thread counts cost more than they give
+DEV_NO_MC = bool(os.environ.get("VERIF_C01_DEV_NO_MC"))   # development aid (mutation runs): skip the exhaustive model checks
+HARNESS = ["harness/db/c01_channelcache_test.go", "harness/db/c01_changes_test.go"]
 JOPT = {"JAVA_TOOL_OPTIONS": "-XX:ParallelGCThreads=2 -XX:CICompilerCount=2"}
 
 
+# -- local variants of core.model_check / core.behaviours / core.validate that take a unique tag, so that independent TLC
+# -- runs (separate JVMs, separate scratch directories) can run side by side; at most POOL at a time
+POOL = max(1, min(4, int(os.environ.get("VERIF_TLC_WORKERS") or 4)))
+
+
+def mc(ctx, spec_dir, module, cfg, tag, timeout=900):
+    r = tlc(ctx, spec_dir, module, cfg, timeout=timeout, coverage=False, env=JOPT, workers=max(1, NCPU // POOL), tag=tag)
+    if r.inv_violated:
+        raise Inconclusive("model counterexample in %s/%s: %s violated (candidate only; not reproduced on real code)\n%s"
+                           % (module, cfg, r.inv_violated, "\n".join("\n".join(x["_txt"]) for x in r.error_trace[-3:])))
+    if r.distinct == 0:
+        raise Inconclusive("TLC reported no states for %s/%s\n%s" % (module, cfg, r.out[-800:]))
+    ctx.cov["states"] += r.distinct
+    ctx.cov["transitions"] += r.generated
+    log("  TLC %-28s %-30s %9d distinct %10d generated depth %3d  %.1fs" % (module, cfg, r.distinct, r.generated, r.depth, r.wall))
+    return r
+
+
+def beh(ctx, spec_dir, module, cfg, tag, num=None, depth=None, timeout=3000, env=None):
+    e = dict(JOPT, **(env or {}))
+    if num is None:
+        r = tlc(ctx, spec_dir, module, cfg, timeout=timeout, env=e, workers=1, tag=tag)
+    else:
+        r = tlc(ctx, spec_dir, module, cfg, mode="simulate", simulate=num, depth=depth, timeout=timeout, env=e, tag=tag)
+    if r.inv_violated:
+        raise Inconclusive("behaviour generation %s/%s violated %s" % (module, cfg, r.inv_violated))
+    res, seen = [], set()
+    for t, txt in r.printed:
+        if t == "BEH":
+            js = json.loads(txt)
+            if js not in seen:
+                seen.add(js)
+                res.append(json.loads(js))
+    if not res:
+        raise Inconclusive("no behaviours exported by %s/%s\n%s" % (module, cfg, r.out[-800:]))
+    log("  TLC %-28s %-30s exported %d distinct behaviours  %.1fs" % (module, cfg, len(res), r.wall))
+    return res
+
+
+def parallel(jobs):
+    """jobs: {name: thunk}; returns {name: result}; the first exception (Inconclusive included) is re-raised"""
+    from concurrent.futures import ThreadPoolExecutor
+    with ThreadPoolExecutor(max_workers=POOL) as ex:
+        futs = {k: ex.submit(f) for k, f in jobs.items()}
+        return {k: f.result() for k, f in futs.items()}
+
+
 def run(ctx):
-    part_a(ctx)
-    part_b(ctx)
-    part_c(ctx)
+    q = ctx.quick()
+    jobs = {}
+    if not DEV_NO_MC:
+        jobs["mcA"] = lambda: mc(ctx, SPEC_A, "MC_ChannelCache", "MC_ChannelCache.cfg" if q else "MC_ChannelCache_thorough.cfg", "mcA", 1500 if q else 7000)
+        jobs["mcB"] = lambda: mc(ctx, SPEC_B, "MC_Changes", "MC_Changes.cfg" if q else "MC_Changes_thorough.cfg", "mcB", 1500 if q else 7000)
+        jobs["mcC"] = lambda: part_c(ctx)
+    if q:
+        # every behaviour of length 4 (full alphabet, cache length 1..3) and every behaviour of length 5 over the core alphabet
+        # (add / write-later / deliver / prune-by-age / query-backed read, 2 documents) for one cache length chosen by the seed
+        jobs["behA1"] = lambda: beh(ctx, SPEC_A, "MC_ChannelCache", "Beh_ChannelCache.cfg", "behA1")
+        jobs["behA2"] = lambda: beh(ctx, SPEC_A, "MC_ChannelCache", "Beh_ChannelCache_deep.cfg", "behA2", env={"VERIF_C01_MAXLEN": str(1 + ctx.seed % 2)})
+    else:
+        jobs["behA1"] = lambda: beh(ctx, SPEC_A, "MC_ChannelCache", "Beh_ChannelCache_thorough.cfg", "behA1", timeout=6000)
+    jobs["simA"] = lambda: beh(ctx, SPEC_A, "MC_ChannelCache", "Sim_ChannelCache.cfg", "simA", num=150 if q else 3000, depth=14)
+    jobs["behB"] = lambda: beh(ctx, SPEC_B, "MC_Changes", "Beh_Changes.cfg", "behB")        # every 2-write history of one document
+    jobs["simB"] = lambda: beh(ctx, SPEC_B, "MC_Changes", "Sim_Changes.cfg", "simB", num=10 if q else 250, depth=10)
+    res = parallel(jobs)
+    a = gen_a(ctx, res["behA1"] + res.get("behA2", []) + res["simA"])
+    b = gen_b(ctx, res["behB"], res["simB"])
+    # one go test invocation (one link of the db test binary) runs both harnesses
+    ctr = os.path.join(ctx.scratch, "c01c.ndjson")
+    cenv = {"VERIF_TRACE_OUT_C": ctr, "VERIF_C01_CONT_ROUNDS": 2 if ctx.quick() else 12}
+    rc, out = go_test(ctx, "db", "^TestVerif_C01_(ChannelCache|Changes|Continuous)$", HARNESS, env=dict(a["env"], **b["env"], **cenv),
+                      timeout=1800 if ctx.quick() else 7200)
+    if rc != 0 or not os.path.exists(a["tr"]) or not os.path.exists(b["tr"]) or not os.path.exists(ctr):
+        raise Inconclusive("C01 harness failed:\n" + harness_failure(out))
+    for l in out.splitlines():
+        if "VERIF-TIMING" in l:
+            log("  " + l.strip())
+    # the five trace validations are independent TLC runs
+    vres = parallel({
+        "aP": lambda: validate(ctx, SPEC_A, "Trace_ChannelCache", "Trace_ChannelCache_P.cfg", a["tr"], timeout=3000 if q else 12000, env=JOPT, tag="aP"),
+        "aC": lambda: validate(ctx, SPEC_A, "Trace_ChannelCache", "Trace_ChannelCache_C.cfg", a["tr"], timeout=3000 if q else 12000, env=JOPT, tag="aC"),
+        "bP": lambda: validate(ctx, SPEC_B, "Trace_Changes", "Trace_Changes_P.cfg", b["tr"], timeout=3000 if q else 12000, env=JOPT, tag="bP"),
+        "bC": lambda: validate(ctx, SPEC_B, "Trace_Changes", "Trace_Changes_C.cfg", b["tr"], timeout=3000 if q else 12000, env=JOPT, tag="bC"),
+        "cP": lambda: validate(ctx, SPEC_B, "Trace_Changes", "Trace_Changes_P.cfg", ctr, timeout=1500, env=JOPT, tag="cP"),
+    })
+    check_a(ctx, a, vres["aP"], vres["aC"])
+    check_b(ctx, b, vres["bP"], vres["bC"])
+    check_c(ctx, ctr, cenv, vres["cP"])
     ctx.cov["exhaustive"] = True
     ctx.cov["rule"] = (
-        "(a) behaviours = every action sequence of length %d (add / write-later+deliver / prune-by-age / purge / re-create / query-backed read) "
+        "(a) behaviours = every action sequence of length %s (add / write-later+deliver / prune-by-age / purge / re-create / query-backed read) "
         "over 3 documents, 6 sequences, cache length 1..3, plus seeded TLC simulations of length 12 (cache length 1..3, min length 0..1, 2 writes "
         "in flight, reads split at the query with up to 2 interleaved actions); every distinct real cache state visited is probed with every read "
         "(since x limit 0..2 x active_only) on a copy; non-trivial = the real cache's validity point moved or a late entry was delivered. "
@@ -29,13 +115,14 @@ def run(ctx):
         "3 documents x 3 channels, grouped in epochs on four databases (warm, flushed+cleared, cache length 1, channel-count limit 1); after every "
         "write seeded request groups (requester incl. admin x requested channels incl. wildcard x active_only): answer from 0, from later plain and "
         "compound positions with limits, page-through chains resumed from last_seq strings; non-trivial = a response carried a removal or deletion row"
-        % (4 if ctx.quick() else 5))
+        % ("4, and of length 5 over the core alphabet for one cache length picked by the seed" if ctx.quick() else "5"))
     ctx.assumptions += [
         "(a) the channel query handler is the environment and answers from the same truth the oracle uses (N1QL semantics: active_only filters, then limit)",
         "(a) a write that changes the channel's rows is always handed to the cache (immediately or late, in any order) unless older than validFrom; a purge never "
         "races a write of the same document or a query backfill (see specs/ChannelCache/NOTES.md for the purge/backfill race the model shows)",
         "(b) grants are static and predate every document (dynamic grants / revocation: C13); the feed is read in a quiescent system (cache caught up) - "
-        "the racing, continuous case is covered by the Listener model only",
+        "continuous feeds racing with writers are only required to deliver the final revision of every visible document once the writers stopped "
+        "(listened to until 1.5 s of silence, bound 15 s); soundness/order of what they deliver while racing is not judged",
         "(b) Rosmar's view query is the bucket; sequences enter only through comparison so small real sequence numbers are used as they are",
     ]
 
@@ -43,20 +130,22 @@ def run(ctx):
 # ------------------------------------------------------------------------------------------------------------
 # (a) ChannelCache
 # ------------------------------------------------------------------------------------------------------------
-def part_a(ctx):
-    q = ctx.quick()
-    model_check(ctx, SPEC_A, "MC_ChannelCache", "MC_ChannelCache.cfg" if q else "MC_ChannelCache_thorough.cfg", timeout=1500 if q else 7000, env=JOPT)
-    behs = behaviours(ctx, SPEC_A, "MC_ChannelCache", "Beh_ChannelCache.cfg" if q else "Beh_ChannelCache_thorough.cfg", timeout=3000, env=JOPT)
-    behs += behaviours(ctx, SPEC_A, "MC_ChannelCache", "Sim_ChannelCache.cfg", num=60 if q else 1200, depth=14, timeout=3000, env=JOPT)
+def gen_a(ctx, behs):
+    hist = {}
+    for b in behs:
+        for s in b["steps"]:
+            hist[s["a"]] = hist.get(s["a"], 0) + 1
+    ctx.cov["c01_channelcache_action_histogram"] = hist
     # shared prefixes are executed and logged once (Trace_ChannelCache: Back)
     behs.sort(key=lambda b: (b["mx"], b["mn"], json.dumps(b["steps"], sort_keys=True)))
     bf = os.path.join(ctx.scratch, "c01a-beh.json")
     tr = os.path.join(ctx.scratch, "c01a.ndjson")
     write_json(bf, behs)
-    rc, out = go_test(ctx, "db", "^TestVerif_C01_ChannelCache$", ["harness/db/c01_channelcache_test.go"],
-                      env={"VERIF_BEH": bf, "VERIF_TRACE_OUT": tr})
-    if rc != 0 or not os.path.exists(tr):
-        raise Inconclusive("C01 channel cache harness failed:\n" + harness_failure(out))
+    return {"behs": behs, "tr": tr, "env": {"VERIF_BEH": bf, "VERIF_TRACE_OUT": tr}}
+
+
+def check_a(ctx, a, vp, vc):
+    behs, tr = a["behs"], a["tr"]
     rows = read_ndjson(tr)
     ctx.cov["evaluations"] += len(behs)
     nontriv, cur, probes, reads = set(), None, 0, 0
@@ -71,7 +160,7 @@ def part_a(ctx):
     ctx.cov["distinct_nontrivial"] += len(nontriv)
     ctx.cov["c01_channelcache"] = {"behaviours": len(behs), "trace_lines": len(rows), "distinct_states_probed": probes, "probe_reads": reads}
     ctx.sample({"part": "a", "behaviour": behs[len(behs) // 2], "real_trace_line": next((r for r in rows if r["a"] == "Read"), rows[1])})
-    vp = validate(ctx, SPEC_A, "Trace_ChannelCache", "Trace_ChannelCache_P.cfg", tr, timeout=3000 if q else 12000, env=JOPT)
+    vlog("Trace_ChannelCache_P", vp, len(rows))
     if vp.inv:
         line = max(1, (vp.line or 2) - 1)
         beh_idx = locate(rows, line)
@@ -83,13 +172,17 @@ def part_a(ctx):
         return
     if not vp.accepted:
         raise Inconclusive("C01(a) pass P stopped at line %s of %s (trace shape not accepted)\n%s" % (vp.line, vp.total, vp.out[-1500:]))
-    vc = validate(ctx, SPEC_A, "Trace_ChannelCache", "Trace_ChannelCache_C.cfg", tr, timeout=3000 if q else 12000, env=JOPT)
+    vlog("Trace_ChannelCache_C", vc, len(rows))
     if vc.inv or not vc.accepted:
         ctx.cov["nonconformance"] += 1
         ln = vc.line if not vc.inv else max(1, (vc.line or 2) - 1)
         ctx.notes.append("C01(a) pass C rejected at line %s (%s): %s" % (ln, vc.inv, trim(rows[ln - 1]) if ln and ln <= len(rows) else None))
     else:
         ctx.cov["traces_validated_against_impl"] += len(behs)
+
+
+def vlog(name, v, n):
+    log("  TLC %-28s validated %d/%d lines%s" % (name, v.consumed if not v.inv else (v.line or 0), n, (" violated " + v.inv) if v.inv else ""))
 
 
 def locate(rows, line):
@@ -108,11 +201,9 @@ def trim(r):
 # ------------------------------------------------------------------------------------------------------------
 # (b) Changes
 # ------------------------------------------------------------------------------------------------------------
-def part_b(ctx):
+def gen_b(ctx, behs, sims):
     q = ctx.quick()
-    model_check(ctx, SPEC_B, "MC_Changes", "MC_Changes.cfg" if q else "MC_Changes_thorough.cfg", timeout=1500 if q else 7000, env=JOPT)
-    behs = behaviours(ctx, SPEC_B, "MC_Changes", "Beh_Changes.cfg", timeout=1500, env=JOPT)        # every 2-write history of one document
-    sims = behaviours(ctx, SPEC_B, "MC_Changes", "Sim_Changes.cfg", num=18 if q else 250, depth=10, timeout=1500, env=JOPT)
+    behs = list(behs)
     # TLC's simulator also prints the siblings of the last step: keep two per simulated history
     seen = {}
     for b in sims:
@@ -120,15 +211,21 @@ def part_b(ctx):
         seen[k] = seen.get(k, 0) + 1
         if seen[k] <= 2:
             behs.append(b)
+    hist = {}
+    for b in behs:
+        for s in b["steps"]:
+            hist[s["a"]] = hist.get(s["a"], 0) + 1
+    ctx.cov["c01_changes_action_histogram"] = hist
     behs.sort(key=lambda b: json.dumps(b["grants"], sort_keys=True))   # an epoch (one set of databases) has one grant assignment
     bf = os.path.join(ctx.scratch, "c01b-beh.json")
     tr = os.path.join(ctx.scratch, "c01b.ndjson")
     write_json(bf, behs)
-    rc, out = go_test(ctx, "db", "^TestVerif_C01_Changes$", ["harness/db/c01_changes_test.go"],
-                      env={"VERIF_BEH": bf, "VERIF_TRACE_OUT": tr, "VERIF_C01_MID_GROUPS": 3 if q else 6, "VERIF_C01_FINAL_GROUPS": 10 if q else 30,
-                           "VERIF_C01_EPOCH": 8})
-    if rc != 0 or not os.path.exists(tr):
-        raise Inconclusive("C01 changes harness failed:\n" + harness_failure(out))
+    return {"behs": behs, "tr": tr, "env": {"VERIF_BEH_B": bf, "VERIF_TRACE_OUT_B": tr, "VERIF_C01_MID_GROUPS": 3 if q else 6,
+                                            "VERIF_C01_FINAL_GROUPS": 10 if q else 30, "VERIF_C01_EPOCH": 8}}
+
+
+def check_b(ctx, b, vp, vc):
+    behs, tr = b["behs"], b["tr"]
     rows = read_ndjson(tr)
     ctx.cov["evaluations"] += len(behs)
     nontriv, cur, nreq, nrows, nrem, ncompound, diff = set(), None, 0, 0, 0, 0, 0
@@ -151,7 +248,7 @@ def part_b(ctx):
                               "removal_or_deletion_rows": nrem, "compound_since_tokens": ncompound, "configuration_payloads_differing": diff}
     ctx.sample({"part": "b", "behaviour": behs[len(behs) // 2],
                 "real_response": next((trim(r) for r in rows if r["a"] == "Base" and r["resp"][0]["rows"]), None)})
-    vp = validate(ctx, SPEC_B, "Trace_Changes", "Trace_Changes_P.cfg", tr, timeout=3000 if q else 12000, env=JOPT)
+    vlog("Trace_Changes_P", vp, len(rows))
     if vp.inv:
         line = max(1, (vp.line or 2) - 1)
         fail = rows[line - 1]
@@ -164,7 +261,7 @@ def part_b(ctx):
         return
     if not vp.accepted:
         raise Inconclusive("C01(b) pass P stopped at line %s of %s (trace shape not accepted)\n%s" % (vp.line, vp.total, vp.out[-1500:]))
-    vc = validate(ctx, SPEC_B, "Trace_Changes", "Trace_Changes_C.cfg", tr, timeout=3000 if q else 12000, env=JOPT)
+    vlog("Trace_Changes_C", vc, len(rows))
     if vc.inv or not vc.accepted:
         ctx.cov["nonconformance"] += 1
         ln = vc.line if not vc.inv else max(1, (vc.line or 2) - 1)
@@ -196,16 +293,54 @@ def last_view(rows, line):
 
 
 # ------------------------------------------------------------------------------------------------------------
-# (c) Listener: liveness of the wake-up model (no binding in this round)
+# (c) continuous feeds racing with writers (bounded-time delivery, reproduce-twice), and the Listener model
 # ------------------------------------------------------------------------------------------------------------
+def check_c(ctx, tr, cenv, vfirst):
+    def one(path, tag, vp=None):
+        rows = read_ndjson(path)
+        vp = vp or validate(ctx, SPEC_B, "Trace_Changes", "Trace_Changes_P.cfg", path, timeout=1500, env=JOPT, tag=tag)
+        vlog("Trace_Changes_P (continuous)", vp, len(rows))
+        if not vp.inv and not vp.accepted:
+            raise Inconclusive("C01(c) pass P stopped at line %s of %s\n%s" % (vp.line, vp.total, vp.out[-1500:]))
+        return rows, vp
+    rows, vp = one(tr, "contP", vfirst)
+    feeds = [r for r in rows if r["a"] == "Cont"]
+    ctx.cov["evaluations"] += len(feeds)
+    ctx.cov["c01_continuous"] = {"feeds": len(feeds), "rows_delivered": sum(len(r["resp"][0]["rows"]) for r in feeds), "first_run_missed": bool(vp.inv)}
+    if vp.inv:
+        # a miss must reproduce: second, independent run of the racing scenario
+        tr2 = tr + ".2"
+        rc, out = go_test(ctx, "db", "^TestVerif_C01_Continuous$", HARNESS, env=dict(cenv, VERIF_TRACE_OUT_C=tr2, VERIF_SEED=ctx.seed + 1000))
+        if rc != 0 or not os.path.exists(tr2):
+            raise Inconclusive("C01 continuous harness failed on the confirmation run:\n" + harness_failure(out))
+        rows2, vp2 = one(tr2, "contP2")
+        if vp2.inv:
+            line = max(1, (vp2.line or 2) - 1)
+            fail = rows2[line - 1]
+            key = "c:%s:%s:%s" % (vp2.inv, fail.get("u"), json.dumps(fail.get("req")))
+            report_violation(ctx, key, "continuous feed of %s on %s racing with writers: %s (missed in two independent runs)" % (fail.get("u"), fail.get("req"), vp2.inv),
+                             {"part": "Continuous", "invariant": vp2.inv, "feed": {"u": fail.get("u"), "req": fail.get("req")},
+                              "admin_view": last_view2(rows2, line), "delivered": trim(fail)})
+        else:
+            ctx.notes.append("C01(c): a continuous feed missed a final revision within the bound in one run and not in the confirmation run (not reported)")
+    else:
+        ctx.cov["traces_validated_against_impl"] += len(feeds)
+        ctx.cov["distinct_nontrivial"] += sum(1 for r in feeds if r["resp"][0]["rows"])
+
+
+def last_view2(rows, line):
+    for r in reversed(rows[:line]):
+        if r["a"] == "View":
+            return r["views"][0]
+    return None
+
 def part_c(ctx):
-    if not os.path.isdir(SPEC_C):
-        return
-    r = tlc(ctx, SPEC_C, "MC_Listener", "MC_Listener.cfg", timeout=900, env=JOPT, allow_violation=True)
+    r = tlc(ctx, SPEC_C, "MC_Listener", "MC_Listener.cfg", timeout=900, env=JOPT, allow_violation=True, tag="mcC", workers=2)
     if r.inv_violated or r.error_text:
         raise Inconclusive("Listener model: %s\n%s" % (r.inv_violated or r.error_text, r.out[-1200:]))
     ctx.cov["states"] += r.distinct
     ctx.cov["transitions"] += r.generated
     log("  TLC %-28s %-22s %9d distinct %10d generated (safety + liveness under fairness)  %.1fs" % ("MC_Listener", "MC_Listener.cfg", r.distinct, r.generated, r.wall))
-    ctx.notes.append("Listener: liveness (every notification of a watched key leads to the waiter running) checked by TLC on the model under weak fairness of "
-                     "the broadcast tick and the waiter; not bound to the implementation in this round")
+    ctx.notes.append("Listener: liveness (every notification of a watched key is eventually seen by the waiter) checked by TLC on the model under weak fairness "
+                     "of the broadcast tick and the waiter; on the real code: continuous feeds racing with writers must deliver every final revision "
+                     "(TLC predicate REventually on the recorded rows, a miss must reproduce in a second run)")
